@@ -261,7 +261,12 @@ func runC17(c *Ctx) {
 		c.Check("C17.G1", "ParseDID:did-before-last-colon", okDid, parseDID.Pos(), "the long-form branch returns did[0:LastIndex(did, \":\")] as the short form")
 		c.CheckGuard("C17.G1", "ParseDID:long-form-requires-valid-initial-state", parseDID, nil, anyOf("short form (no ':' after the namespace) or parseInitialState ok",
 			callTo("parseInitialState(...)", pis),
-			cmpAccept("no long-form separator", token.EQL, func(s string) bool { return strings.HasPrefix(s, "strings.Index(") }, pathIs("-1"))))
+			cmpAccept("no long-form separator", token.EQL, func(s string) bool { return strings.HasPrefix(s, "strings.Index(") }, pathIs("-1")),
+			cmpAccept("no long-form separator", token.LSS, func(s string) bool { return strings.HasPrefix(s, "strings.Index(") }, pathIs("0")),
+			&GCheck{Name: "no long-form separator", BoolFalse: true, MatchCall: func(c *Ctx, call *ssa.Call, env Env) bool {
+				g := call.Call.StaticCallee()
+				return g != nil && g.String() == "strings.Contains" && c.Path(call.Call.Args[1], env) == `":"`
+			}}))
 	}
 	rr := c.Method(pDH, "DocumentHandler", "resolveRequestWithInitialState")
 	if rr == nil {
@@ -489,8 +494,54 @@ func (c *Ctx) condsOf(b *ssa.BasicBlock) []string {
 			continue
 		}
 		if iff, ok := id.Instrs[len(id.Instrs)-1].(*ssa.If); ok {
-			out = append(out, fmt.Sprintf("%s=%v", c.Path(iff.Cond, nil), id.Succs[0] == x))
+			out = append(out, c.canonCond(iff.Cond, id.Succs[0] == x))
 		}
 	}
 	return out
+}
+
+// canonCond renders a branch condition with its truth value in a canonical spelling: negations are folded into the
+// truth value; strings.Index(h,n) compared with -1 / 0 and strings.Contains(h,n) are both "contains(h,n)".
+func (c *Ctx) canonCond(cond ssa.Value, truth bool) string {
+	for d := 0; d < 4; d++ {
+		u, ok := cond.(*ssa.UnOp)
+		if !ok || u.Op != token.NOT {
+			break
+		}
+		cond, truth = u.X, !truth
+	}
+	isIdx := func(v ssa.Value) (string, bool) {
+		cl, ok := v.(*ssa.Call)
+		if !ok || cl.Call.StaticCallee() == nil || len(cl.Call.Args) != 2 {
+			return "", false
+		}
+		switch cl.Call.StaticCallee().String() {
+		case "strings.Index", "strings.IndexByte", "bytes.Index", "bytes.IndexByte":
+			return "contains(" + c.Path(cl.Call.Args[0], nil) + "," + c.Path(cl.Call.Args[1], nil) + ")", true
+		}
+		return "", false
+	}
+	switch x := cond.(type) {
+	case *ssa.Call:
+		if g := x.Call.StaticCallee(); g != nil && len(x.Call.Args) == 2 {
+			switch g.String() {
+			case "strings.Contains", "bytes.Contains", "strings.ContainsRune":
+				return fmt.Sprintf("contains(%s,%s)=%v", c.Path(x.Call.Args[0], nil), c.Path(x.Call.Args[1], nil), truth)
+			}
+		}
+	case *ssa.BinOp:
+		l, r, op := x.X, x.Y, x.Op
+		if _, isK := l.(*ssa.Const); isK {
+			l, r, op = r, l, flipOp(op)
+		}
+		if cs, ok := isIdx(l); ok {
+			switch rp := c.Path(r, nil); {
+			case rp == "-1" && op == token.EQL, rp == "0" && op == token.LSS:
+				return fmt.Sprintf("%s=%v", cs, !truth)
+			case rp == "-1" && (op == token.NEQ || op == token.GTR), rp == "0" && op == token.GEQ:
+				return fmt.Sprintf("%s=%v", cs, truth)
+			}
+		}
+	}
+	return fmt.Sprintf("%s=%v", c.Path(cond, nil), truth)
 }
